@@ -33,7 +33,7 @@ func (r *rng) intn(n int) int {
 	return int(r.next() % uint64(n))
 }
 
-func (r *rng) rangeInt(lo, hi int) int { return lo + r.intn(hi-lo+1) }
+func (r *rng) rangeInt(lo, hi int) int  { return lo + r.intn(hi-lo+1) }
 func (r *rng) chance(num, den int) bool { return r.intn(den) < num }
 
 func pickOne[T any](r *rng, xs []T) T { return xs[r.intn(len(xs))] }
